@@ -8,8 +8,9 @@ exactly as drivers/srv.py does.  What is added from outside (no hook in /repo):
 
 * every access the terminating paths make to shared state is wrapped ON THE INSTANCE:
   manager.get_namespaces / sid_from_eio_sid / is_connected (can_disconnect reaches it) /
-  pre_disconnect / disconnect, eio.send, the scripted disconnect handler, and `server.environ`
-  (a dict subclass).  A wrapper logs one label per access (vocabulary `lbl` of
+  pre_disconnect / disconnect, eio.send, the scripted disconnect handler, `server.environ`
+  (a dict subclass) and, threaded server, `server._disconnect_lock` (ILock: acquire is a
+  scheduling point, a thread waiting for a held lock is not enabled).  A wrapper logs one label per access (vocabulary `lbl` of
   coq/Conc/ServerConc.v).
 * threads: before the access the wrapper hands a baton to the controller (semaphores), so that
   exactly one thread runs between two scheduling points and a run is a function of its
@@ -91,6 +92,45 @@ class IEnviron(dict):
         r = dict.__contains__(self, k)
         self._ctl.log(('Env', k, r))
         return r
+
+
+class ILock:
+    """Stands for server._disconnect_lock (a threading.Lock) under the baton scheduler: the
+    acquire is a scheduling point, a thread that wants the lock is NOT ENABLED while another one
+    holds it (the controller never resumes it then), so nothing ever blocks for real."""
+
+    def __init__(self, ctl):
+        self._ctl = ctl
+        self.holder = None
+
+    def acquire(self, blocking=True, timeout=-1):
+        t = self._ctl.cur()
+        if t is None:                   # setup code on the main thread
+            return True
+        t.wants = self
+        try:
+            self._ctl.point(('acquire',))
+        finally:
+            t.wants = None
+        if self.holder is not None:
+            raise RuntimeError('the scheduler resumed a thread that waits for a held lock')
+        self.holder = t
+        self._ctl.log(('Acquire',))
+        return True
+
+    def release(self):
+        if self._ctl.cur() is not None:
+            self.holder = None
+
+    def locked(self):
+        return self.holder is not None
+
+    def __enter__(self):
+        self.acquire()
+        return self
+
+    def __exit__(self, *exc):
+        self.release()
 
 
 def instrument_manager(ctl, sio, is_async):
@@ -191,6 +231,7 @@ class _TTask:
         self.name = name
         self.sem = threading.Semaphore(0)
         self.state = 'new'          # ready | done
+        self.wants = None           # the ILock this thread is parked in front of
         self.thread = None
         self.error = None
 
@@ -306,6 +347,8 @@ def run_threads(scenario, sched, extend=None, max_steps=400):
     # instrument
     instrument_manager(ctl, sio, False)
     sio.environ = IEnviron(ctl, sio.environ)
+    if hasattr(sio, '_disconnect_lock'):
+        sio._disconnect_lock = ILock(ctl)
     o_send = sio.eio.send
 
     def send(eio_sid, data):
@@ -355,7 +398,8 @@ def run_threads(scenario, sched, extend=None, max_steps=400):
         fixed = list(sched)
         k = 0
         while k < max_steps:
-            en = [i for i, t in enumerate(tasks) if t.state != 'done']
+            en = [i for i, t in enumerate(tasks)
+                  if t.state != 'done' and not (t.wants is not None and t.wants.holder is not None)]
             if k < len(fixed):
                 ch = fixed[k]
             elif extend is not None and en:
@@ -363,6 +407,8 @@ def run_threads(scenario, sched, extend=None, max_steps=400):
                 if ch is None:
                     break
             else:
+                if extend is not None and any(t.state != 'done' for t in tasks):
+                    res.error = res.error or 'deadlock: every unfinished thread waits for a lock'
                 break
             res.enabled.append(en)
             res.schedule.append(ch)
